@@ -3,6 +3,7 @@ package checks
 import (
 	"visim/app"
 	"visim/core"
+	"visim/examples"
 	"visim/world"
 )
 
@@ -43,11 +44,26 @@ func runC07(c *core.Ctx) *core.Outcome {
 	cfg := genCfg(t)
 	cfg.Backend = t.Weighted(3, 2, 1, 2)
 	cfg.SetSession = t.Chance(1, 2)
-	a := app.Generate(t, fullProfile(t, cfg.FlagCount))
-	if err := a.Validate(); err != nil {
-		panic("generator produced ill-formed app: " + err.Error())
+	var a *app.App
+	exs := examples.All()
+	if len(exs) > 0 && t.Chance(1, 6) {
+		// one of the repository's example applications (assembled with the real assembler)
+		ex := exs[t.Int(len(exs))]
+		a = ex.App
+		cfg.FlagCount = ex.FlagCount + uint32(t.Int(2))
+		o.Probes["example_app"]++
+	} else {
+		a = app.Generate(t, fullProfile(t, cfg.FlagCount))
+		if err := a.Validate(); err != nil {
+			panic("generator produced ill-formed app: " + err.Error())
+		}
 	}
-	nreq := t.Range(2, 14)
+	maxReq := 14
+	if c.Tier == "thorough" {
+		maxReq = 24
+	}
+	nreq := t.Range(2, maxReq)
+	dbStack := t.Chance(1, 4)
 
 	wl := world.New(a, cfg)
 	L := wl.NewSession("sess", false)
@@ -60,6 +76,15 @@ func runC07(c *core.Ctx) *core.Outcome {
 	defer wm.Close()
 	M := wm.NewSession("sess", true)
 
+	if dbStack {
+		// all three twins read the application through the library's DbResource
+		for _, w := range []*world.World{wl, wp, wm} {
+			if err := w.UseDbResource(); err != nil {
+				panic("cannot build DbResource: " + err.Error())
+			}
+		}
+		o.Probes["db_resource_stack"]++
+	}
 	var inputs [][]byte
 	okReq := 0
 	restartsWithState := 0
